@@ -51,13 +51,13 @@ FAULT_KINDS = ["ENOSPC", "EIO", "EPERM", "KBI", "PARTIAL"]
 
 
 def budget(tier):
-    return 6000 if tier == "quick" else 150000
+    return 16000 if tier == "quick" else 600000
 
 
 # --------------------------------------------------------------- plan gen
 def gen_plan(seed, tier):
     rng = random.Random(derive_seed(seed, "c07plan"))
-    if seed % 8 == 0:
+    if seed % 40 == 0:
         return gen_sweep(seed, rng, tier)
     return gen_gitfile(seed, rng, tier)
 
@@ -543,7 +543,7 @@ SWEEP_KINDS = ["ENOSPC", "EIO", "EPERM", "KBI", "PARTIAL"]
 
 
 def gen_sweep(seed, rng, tier):
-    j = seed // 8
+    j = seed // 40
     combo = j % (len(ROUTINE_NAMES) * len(SWEEP_KINDS))
     rt = ROUTINE_NAMES[combo % len(ROUTINE_NAMES)]
     kind = SWEEP_KINDS[combo // len(ROUTINE_NAMES)]
